@@ -147,7 +147,31 @@ def oracle(lay, go_lines):
     """The property's four predicates on the implementation's values (valid layouts only)."""
     fails = []
     if not is_valid_layout(lay):
-        return fails
+        # "for any set of time frames": a layout with OVERLAPPING non-empty frames that the library nevertheless accepts
+        # (every SetExpression call answered ok) is a set of time frames too - the two predicates that do not depend on which
+        # frame is in force (travel time never negative, leaving later never arrives earlier) are judged on it
+        sets = [l for l in go_lines if l.startswith("set ")]
+        ne = sorted(f for f in lay["frames"] if f[1] > f[0] and f[0] >= 0 and f[0] % 60 == 0 and f[1] % 60 == 0)
+        overlapping = any(a[1] > b[0] for a, b in zip(ne, ne[1:]))
+        if not overlapping or not sets or any(not l.endswith("ok") for l in sets):
+            return fails
+        deps = [F(d) for d in lay["deps"]]
+        got = {}
+        for l in go_lines:
+            fs = l.split()
+            if fs[0] == "val" and fs[2] != "panic" and "nonfinite" not in fs[2]:
+                got[int(fs[1])] = F(fs[2])
+        prev = None
+        for i, t in enumerate(deps):
+            if i not in got or t < 0:
+                continue
+            v = got[i]
+            if v < 0:
+                fails.append("overlapping frames accepted: negative travel %s at departure %s" % (v, t))
+            if prev is not None and prev[0] + prev[1] > t + v + TOL_ABS:
+                fails.append("overlapping frames accepted: FIFO: depart %s arrive %s, depart %s arrive %s" % (prev[0], prev[0] + prev[1], t, t + v))
+            prev = (t, v)
+        return fails[:3]
     sets = [l for l in go_lines if l.startswith("set ")]
     if any(not l.endswith("ok") for l in sets):
         fails.append("valid disjoint minute-aligned layout rejected: %s" % sets)
@@ -179,7 +203,7 @@ def oracle(lay, go_lines):
             if pt + pv > t + v + TOL_ABS:
                 fails.append("FIFO: depart %s arrive %s, depart %s arrive %s" % (pt, pt + pv, t, t + v))
         prev = (t, v)
-        if not nonempty:
+        if not frames:
             if not close(v, vals[0]):
                 fails.append("no frames: travel %s != default %s at %s" % (v, vals[0], t))
             continue
@@ -191,7 +215,9 @@ def oracle(lay, go_lines):
             if exprs.get(i) != k:
                 fails.append("ExpressionAtValue(%s) = %s, frame expression is %s" % (t, exprs.get(i), k))
         else:
-            nxt = [f[0] for f in frames if f[0] > t]
+            # the next frame: an EMPTY frame [x, x) sitting exactly at the departure counts as well (C17_outside_frames: the
+            # trip has to end before every frame that starts at or after the departure)
+            nxt = [f[0] for f in frames if f[0] > t or (f[0] == f[1] and f[0] >= t)]
             gap_end = min(nxt) if nxt else None
             if (gap_end is None or t + vals[0] <= gap_end) and not close(v, vals[0]):
                 fails.append("outside all frames at %s: travel %s != default %s" % (t, v, vals[0]))
